@@ -197,6 +197,16 @@ theorem C10_bitReverse_index (m : Nat) (a : List R) (i : Nat) (hi : i < a.length
 
 example : bitReverse 3 [0, 1, 2, 3, 4, 5, 6, 7] = ([0, 4, 2, 6, 1, 5, 3, 7] : List (ZMod 5)) := by decide
 
+/-- **the streaming digest of op `bitrevbig` is the digest of `BitReverse`** (every size, every `q`, `mult`): the driver's
+table-driven loop (`bitrevSplit`: `bitrev (a+b) (hi·2^b+lo) = bitrev b lo·2^a + bitrev a hi`; `% q` skipped when it is the
+identity) computes `Σ_i (i+1)·w[i] mod 2^61−1` for `w = BitReverse(v)`, `w[i] = v[bitrev m i]`, `v[k] = (k·mult+1) mod q` -/
+theorem C10_bitrevDigest (q m mult : Nat) :
+    bitrevDigest q m mult =
+      (List.range (2^m)).foldl (fun acc i => (acc + (i+1) * ((bitrev m i * mult + 1) % q)) % (2^61-1)) 0 :=
+  bitrevDigest_eq q m mult
+
+example : bitrevDigest 5 3 2 = 56 := by decide   -- w = 1,4,0,3,3,1,2,0
+
 /-- **options do not change the function**: kernel set (32/256-point kernels or none) and precompute mode are
     invisible in the result -/
 theorem C10_options_irrelevant (kers kers' : List Nat) (d : Domain R) (p : Bool) (dif coset : Bool) (a : List R)
